@@ -4,7 +4,7 @@ from __future__ import annotations
 ID = "C21"
 BOUNDS = {
     "quick": "(a) decode-first: for every service type a symbolic datagram of the exact announced length L = 6..24 (list-structured bodies: up to 6 octets of DIB/SRP list) is parsed by KNXIPFrame.from_knx; every body it yields is serialised once (which must not raise and must be accepted by the parser again: normalisation of lenient parsing such as odd structure lengths), and the resulting body b (any field values the library itself puts on the wire) is re-framed with KNXIPFrame.init_from_body(b): len(to_knx()) == header.total_length == 6 + b.calculated_length(), and parsing that frame returns a structurally equal body and no rest; (b) construct-first for bodies whose parser could hide a value: TunnellingFeatureGet/Set/Info/Response with every feature type and return code, channel and sequence symbolic, data of 0..2 symbolic octets; SearchResponse/SearchResponseExtended/DescriptionResponse carrying a DIBDeviceInformation with symbolic medium/status/address/project fields and names from a concrete list (ASCII, ISO 8859-1 letters, 30 characters, empty) plus a supported-service-families DIB with symbolic versions; RoutingBusy/RoutingLostMessage with symbolic fields; SearchRequestExtended with SRPs from the public factories (programming mode, MAC with symbolic octets, service family with symbolic version, requested DIBs)",
-    "thorough": "as quick with L up to 60 and 12 octets of DIB/SRP list",
+    "thorough": "as quick with L up to 40 and 8 octets of DIB/SRP list",
 }
 OUTSIDE = "bodies longer than the bound; SearchRequestExtended bodies with SRP lists in the decode-first part (only the constructed SRPs are decided); device names, serial numbers and MAC strings in the decode-first part (opaque placeholder strings: those bodies are reported inconclusive there and covered by (b) with concrete names); secure wrapper/session payload content beyond its length"
 ASSUMPTIONS = [
@@ -20,9 +20,9 @@ NAMES = ["", "Gateway", "Büro n°2", "X" * 30, "äöüßéÿ"]
 
 def jobs(tier, seed):
     from xknx.knxip.knxip_enum import KNXIPServiceType
-    top = 24 if tier == "quick" else 60
+    top = 24 if tier == "quick" else 40
     LISTS = {"SEARCH_RESPONSE": 14, "SEARCH_RESPONSE_EXTENDED": 14, "SEARCH_REQUEST_EXTENDED": 14, "DESCRIPTION_RESPONSE": 6}
-    room = 6 if tier == "quick" else 12
+    room = 6 if tier == "quick" else 8
     out = []
     for st in KNXIPServiceType:
         t = top if st.name not in LISTS else LISTS[st.name] + room
